@@ -102,11 +102,18 @@ def body(t, src, cnt, deps, pdeps, prods, pprods, fails):
                 p.unlink()
     log(f"E {t}")
 
-def gen_start(t, pdeps, fails):
+def gen_start(t, pdeps, fails, prods=(), src=0):
+    """fails: False | True (raises before writing anything) | "late" (writes its products, then raises)"""
     got = start(t, pdeps)
-    if fails:
+    if fails and fails != "late":
         log(f"X {t}")
         raise RuntimeError(f"generator {t} fails")
+    for i, p in enumerate(prods):
+        Path(p).parent.mkdir(parents=True, exist_ok=True)
+        Path(p).write_text(str(F(t, i, src, [])))
+    if fails == "late":
+        log(f"X {t}")
+        raise RuntimeError(f"generator {t} fails late")
     return [n for l in got for n in l]
 
 def copy_body(base, src, path, produces):
@@ -166,9 +173,27 @@ def pat_range(spec, pid):
 # rendering
 # ------------------------------------------------------------------------------------------------
 
-def _dirnode(spec, pid) -> str:
+def _dirnode(spec, pid, name=None) -> str:
+    """`name` = a custom `name=` of the DirectoryNode (a label: the node's identity is (root_dir, pattern) only)."""
     p = pat_of(spec, pid)
-    return f"DirectoryNode(root_dir=D / 'd{p['dir']}', pattern={geom(p)[0]!r})"
+    nm = f"name={name!r}, " if name else ""
+    return f"DirectoryNode({nm}root_dir=D / 'd{p['dir']}', pattern={geom(p)[0]!r})"
+
+
+def after_idents(t):
+    return list(t.get("after") or [])
+
+
+def after_ids(spec, t):
+    """ids of all tasks — static, defined by generators, or potentially defined per file — whose name an ident of
+    `@task(after="<ident> or <ident> …")` is a substring of (KeywordMatcher: case-insensitive substring of the task name)."""
+    idents = after_idents(t)
+    if not idents:
+        return []
+    cand = {u["id"] for u in spec["tasks"]}
+    for g, base in spec.get("perfile", {}).items():
+        cand.update(int(base) + n for n in range(1000, 1000 + 20 * 4))
+    return sorted(c for c in cand if c != t["id"] and any(i.lower() in tname(c) for i in idents))
 
 
 def _render_task(spec, t, ind: str, kid: bool) -> list[str]:
@@ -177,21 +202,24 @@ def _render_task(spec, t, ind: str, kid: bool) -> list[str]:
     pp_args, pd_args = [], []
     ret_ann = None
     ret_style = (t.get("pstyle") == "return" and len(t["pprods"]) == 1 and not t["prods"])
+
+    def dn(j, kind):
+        return f"dir_{kind}{j}_of_t{t['id']}" if t.get("dname") else None
     for j, pid in enumerate(t["pprods"]):
         p = pat_of(spec, pid)
         _, lo, ln = geom(p)
         if ret_style:
-            ret_ann = f"Annotated[None, {_dirnode(spec, pid)}]"
+            ret_ann = f"Annotated[None, {_dirnode(spec, pid, dn(j, 'p'))}]"
             pp_args.append(f"(D / 'd{p['dir']}', {lo}, {ln})")
         else:
-            nodef.append(f"pp{j}: Annotated[Path, {_dirnode(spec, pid)}, Product]")
+            nodef.append(f"pp{j}: Annotated[Path, {_dirnode(spec, pid, dn(j, 'p'))}, Product]")
             pp_args.append(f"(pp{j}, {lo}, {ln})")
     for j, pid in enumerate(t["pdeps"]):
         p = pat_of(spec, pid)
         if t.get("dstyle") == "annotated":
-            nodef.append(f"q{j}: Annotated[list, {_dirnode(spec, pid)}]")
+            nodef.append(f"q{j}: Annotated[list, {_dirnode(spec, pid, dn(j, 'q'))}]")
         else:
-            params.append(f"q{j}={_dirnode(spec, pid)}")
+            params.append(f"q{j}={_dirnode(spec, pid, dn(j, 'q'))}")
         pd_args.append(f"(q{j}, D / 'd{p['dir']}', {geom(p)[0]!r})")
     cnt = "None"
     if t.get("cnt") is not None:
@@ -216,13 +244,18 @@ def _render_task(spec, t, ind: str, kid: bool) -> list[str]:
         deco.append(f"name={tname(t['id'])!r}")
     if t.get("gen"):
         deco.append("is_generator=True")
+    if after_idents(t):
+        deco.append("after=" + repr(" or ".join(after_idents(t))))
     if deco:
         L.append(f"{ind}@task({', '.join(deco)})")
     fname = f"_k{t['id']}" if kid else tname(t["id"])
     sig = ", ".join(nodef + params)
     L.append(f"{ind}def {fname}({sig})" + (f" -> {ret_ann}:" if ret_ann else ":"))
     if t.get("gen"):
-        L.append(f"{ind}    files = rt.gen_start({t['id']}, [{', '.join(pd_args)}], {bool(t.get('fails'))!r})")
+        if t["prods"] or t.get("fails") == "late":
+            L.append(f"{ind}    files = rt.gen_start({t['id']}, [{', '.join(pd_args)}], {t.get('fails')!r}, [{', '.join(prod_names)}], SRC)")
+        else:
+            L.append(f"{ind}    files = rt.gen_start({t['id']}, [{', '.join(pd_args)}], {bool(t.get('fails'))!r})")
         for k in [u for u in spec["tasks"] if u.get("parent") == t["id"]]:
             L.extend(_render_task(spec, k, ind + "    ", kid=True))
         base = spec.get("perfile", {}).get(str(t["id"]))
@@ -339,7 +372,7 @@ def model_lines(spec):
         lines.append(
             f"prov.task id={t['id']} src={SRC_NODE} cnt={'none' if t.get('cnt') is None else t['cnt']} "
             f"deps={','.join(map(str, t['deps']))} pdeps={_slots(spec, t['pdeps'])} prods={','.join(map(str, t['prods']))} "
-            f"pprods={_slots(spec, t['pprods'])} after= gen={1 if t.get('gen') else 0} fails={1 if t.get('fails') else 0} "
+            f"pprods={_slots(spec, t['pprods'])} after={','.join(map(str, after_ids(spec, t)))} gen={1 if t.get('gen') else 0} fails={1 if t.get('fails') else 0} "
             f"parent={'none' if t.get('parent') is None else t['parent']}")
     for g, base in spec.get("perfile", {}).items():
         lines.append(f"prov.perfile gen={g} base={base}")
@@ -523,7 +556,7 @@ def run_history(server, hist, keep=False):
             if kind == "build":
                 (root / ".verif_log").unlink(missing_ok=True)
                 pre = snapshot(root, spec)
-                obs = server.build(root, {})
+                obs = server.build(root, dict(hist.get("kw") or {}))
                 obs["log"] = read_log(root)
                 rec.update({"obs": obs, "pre": pre, "post": snapshot(root, spec), "hashseed": server.hashseed})
                 if obs.get("timeout"):
@@ -642,6 +675,27 @@ def gen_spec(rng, *, overlap_p=0.08, fail_p=0.06):
                          "prods": [new_node()], "pprods": [], "gen": False, "fails": False, "parent": g["id"], "pstyle": "param",
                          "dstyle": "default"}
                 tasks.append(k)
+    # a custom `name=` on the DirectoryNodes of some tasks (a label only: producer and consumer still share one node)
+    for t in tasks:
+        if (t["pdeps"] or t["pprods"]) and rng.random() < 0.3:
+            t["dname"] = True
+    # a task ordered by an after-EXPRESSION: it matches static tasks and / or tasks that a generator defines during the build
+    if rng.random() < 0.45:
+        idents = []
+        for g in [t for t in tasks if t["gen"]]:
+            if str(g["id"]) in perfile and rng.random() < 0.8:
+                idents.append(f"task_t{(perfile[str(g['id'])] + 1000) // 100}")      # all copy tasks of that generator
+            for k in [u for u in tasks if u.get("parent") == g["id"] and u["prods"]]:
+                if rng.random() < 0.6:
+                    idents.append(tname(k["id"]))
+        for c in [t for t in tasks if t.get("parent") is None and t["prods"] and not t["gen"]]:
+            if rng.random() < 0.25:
+                idents.append(tname(c["id"]))
+        if idents:
+            cons_prods = [p for t in tasks for p in t["prods"] if t["pdeps"] and t.get("parent") is None]
+            tasks.append({"id": new_tid(), "cnt": None, "deps": [rng.choice(cons_prods)] if cons_prods and rng.random() < 0.6 else [],
+                          "pdeps": [], "prods": [new_node()], "pprods": [], "gen": False, "fails": False, "parent": None,
+                          "pstyle": "param", "dstyle": "default", "after": idents[:3]})
     return {"pats": pats, "tasks": tasks, "perfile": perfile, "inputs": inputs, "version": 0}
 
 
